@@ -118,7 +118,7 @@ theorem checkFunc_complete (f : MFunc) (h : MethodRules f.params) : checkFunc f 
     rcases hmix with ⟨x, y⟩ | ⟨x, y⟩
     · exact absurd ⟨b1 ▸ x, b2 ▸ y⟩ h.noMixIn
     · exact absurd ⟨b3 ▸ x, b4 ▸ y⟩ h.noMixOut
-  · rfl
+  · simp [h.fits]
 
 /-- `checkFunc` decides exactly the documented rules -/
 theorem checkFunc_iff (f : MFunc) : checkFunc f = .ok () ↔ MethodRules f.params :=
